@@ -60,6 +60,27 @@ func genC04(e *emitter, tier string) {
 			e.emit(opCase("matmul-bad", "MatMul", nil, []*TJ{a, b}, nil))
 		}
 	}
+	// fixed-width integer element types: products and sums beyond the range wrap around (Go keeps the low
+	// bits after every operation; Theorems/C03b: the exact result reduced once is the same value)
+	for _, dt := range []string{"i32", "i64", "u32", "u64"} {
+		big := map[string]float64{"i32": 70001, "i64": 3037000507, "u32": 65543, "u64": 4294967311}[dt]
+		for _, sh := range [][2][]int{{{2, 3}, {3, 2}}, {{2, 2, 3}, {3, 2}}, {{3}, {3, 2}}, {{1, 3}, {3, 1}}} {
+			sgn := func(i int) float64 {
+				if (dt == "i32" || dt == "i64") && i%3 == 1 {
+					return -1
+				}
+				return 1
+			}
+			a := seqT(dt, sh[0], func(i int) float64 { return sgn(i) * (big + float64(i)) })
+			b := seqT(dt, sh[1], func(i int) float64 { return big - float64(2*i) })
+			e.emit(opCase("int-overflow", "MatMul", nil, []*TJ{a, b}, nil))
+			if len(sh[0]) == 2 {
+				c := seqT(dt, []int{sh[1][1]}, func(i int) float64 { return big })
+				e.emit(opCase("int-overflow", "Gemm", []Attr{{Name: "alpha", Type: "f", F: 3}, {Name: "beta", Type: "f", F: 2}}, []*TJ{a, b, c}, nil))
+				e.emit(opCase("int-overflow", "Gemm", nil, []*TJ{a, b}, nil))
+			}
+		}
+	}
 	// batch extents that are both > 1 and differ (not broadcastable), either operand the larger
 	for _, pr := range [][2][]int{{{3}, {2}}, {{2}, {3}}, {{3, 1}, {2, 1}}, {{2, 3}, {2, 2}}, {{1, 3}, {2, 2}}, {{3}, {1, 2}}, {{4, 2}, {2, 2}}} {
 		a := smallT("f32", append(append([]int{}, pr[0]...), 2, 3), k)
@@ -207,6 +228,24 @@ func genC04(e *emitter, tier string) {
 	e.emit(opCase("linreg-bad", "LinearRegressor", []Attr{{Name: "coefficients", Type: "floats", Fs: []float64{1, 2}}, {Name: "intercepts", Type: "floats", Fs: []float64{1}}, {Name: "targets", Type: "i", I: 0}}, []*TJ{smallT("f32", []int{2, 2}, 1)}, nil))
 	e.emit(opCase("linreg-bad", "LinearRegressor", []Attr{{Name: "coefficients", Type: "floats", Fs: []float64{1, 2, 3}}, {Name: "intercepts", Type: "floats", Fs: []float64{1}}}, []*TJ{smallT("f32", []int{2, 2}, 1)}, nil))
 	e.emit(opCase("linreg-bad", "LinearRegressor", []Attr{{Name: "coefficients", Type: "floats", Fs: []float64{1, 2}}, {Name: "intercepts", Type: "floats", Fs: []float64{1}}, {Name: "post_transform", Type: "s", S: "NONE"}}, []*TJ{smallT("f32", []int{2, 2}, 1)}, nil))
+	// inputs whose feature dimension does not fit the coefficients although the element count would (re-cut
+	// into rows of F), inputs of other ranks, one and two targets
+	for _, tg := range []int{1, 2} {
+		for _, f := range []int{2, 3} {
+			coef := make([]float64, tg*f)
+			for i := range coef {
+				coef[i] = float64(i + 1)
+			}
+			icpt := make([]float64, tg)
+			attrs := []Attr{{Name: "coefficients", Type: "floats", Fs: coef}, {Name: "intercepts", Type: "floats", Fs: icpt}, {Name: "targets", Type: "i", I: int64(tg)}}
+			for _, sh := range [][]int{{2, 2 * f}, {1, 2 * f}, {f, 1}, {2 * f, 1}, {f, f + 1}, {f + 1, f}, {f}, {2 * f}, {1, 1, f}, {2, 1, f}, {2, f, 1}, {}, {1}} {
+				if len(sh) == 2 && sh[1] == f {
+					continue
+				}
+				e.emit(opCase("linreg-shape", "LinearRegressor", attrs, []*TJ{smallT("f32", sh, f+tg)}, nil))
+			}
+		}
+	}
 	// --- Scaler
 	for _, s := range [][]int{{3}, {2, 3}, {1, 3}, {2, 2, 3}, {4, 1}} {
 		c := s[len(s)-1]
